@@ -117,13 +117,12 @@ def probe_unbuildable(c, a):
         p = subprocess.run(['go', 'vet', '.'], cwd=d, env=goenv(), stdout=subprocess.PIPE, stderr=subprocess.STDOUT, text=True, timeout=600)
     except subprocess.TimeoutExpired:
         return 'build timed out'
-    finally:
-        pass
     shutil.rmtree(d, ignore_errors=True)
     if p.returncode == 0:
         return None
-    lines = [l for l in p.stdout.splitlines() if l.strip()]
-    return (lines[-1] if lines else 'build failed')[:200]
+    lines = [l.strip() for l in p.stdout.splitlines() if l.strip() and not l.startswith('#')]
+    errs = [l for l in lines if '.go:' in l or l.startswith('go:')]
+    return ((errs or lines or ['build failed'])[0])[:220]
 
 
 def prepare_nofail(c, a):
